@@ -339,6 +339,34 @@ func c09Check(t *core.T, wd *sim.World, m *pendModel, when string) bool {
 			}
 		}
 		gotPend := map[string]bool{}
+		// (g) a mined, unspent deposit is shown as being withdrawn exactly while a pending transaction spends it
+		histFlag := func(name string, txh wire.Hash, idx uint32, height uint64, spent, sbu bool) {
+			if height == 0 || spent {
+				return
+			}
+			op := wire.OutPoint{Hash: txh, Index: idx}
+			if o := v.Outs[op]; o == nil || o.Spent || m.spentByUnspecified(op) {
+				return
+			}
+			t.Count("deposit_withdrawing_flags_compared", 1)
+			if want := flagged[op]; sbu != want {
+				if want {
+					fail("spent-by-unmined-flag-missing", fmt.Sprintf("%s: deposit %v is spent by a pending transaction but is not shown as being withdrawn", name, op))
+				} else {
+					fail("spent-by-unmined-flag-stale", fmt.Sprintf("%s: deposit %v has no pending spender but is shown as being withdrawn", name, op))
+				}
+			}
+		}
+		if hs, err := wd.W.W.GetStakingHistory(false); err == nil {
+			for _, x := range hs {
+				histFlag("GetStakingHistory", x.TxHash, x.Index, x.BlockHeight, x.Utxo.Spent, x.Utxo.SpentByUnmined)
+			}
+		}
+		if hs, err := wd.W.W.GetBindingHistory(false); err == nil {
+			for _, x := range hs {
+				histFlag("GetBindingHistory", x.TxHash, x.Index, x.BlockHeight, x.Utxo.Spent, x.Utxo.SpentByUnmined)
+			}
+		}
 		if hs, err := wd.W.W.GetStakingHistory(false); err == nil {
 			for _, x := range hs {
 				if x.BlockHeight == 0 {
